@@ -150,9 +150,15 @@ class DecoratorRegistry:
                 # listen to the queue
                 #
                 State.set(test_handshake[0], test_handshake[1])
-        await dm.start()
+        try:
+            await dm.start()
 
-        ret = await dm.wait_until()
+            ret = await dm.wait_until()
+        except asyncio.CancelledError:
+            # the waiting task was cancelled: release what the triggers subscribed to
+            if dm.status is DecoratorManagerStatus.RUNNING:
+                await dm.stop()
+            raise
 
         return ret
 
